@@ -78,6 +78,25 @@ static int elem_at(size_t i)
 	return id_of(json_object_array_get_idx(arr, i));
 }
 
+/* fault overlay: fault_k >= 0: the fault_k-th allocation request of the NEXT armed library call fails;
+ * fault_k == -1: only count the requests of that call */
+static long fault_k = -2, fault_n;
+static int fault_hit;
+#define ARMED(call) \
+	do \
+	{ \
+		fault_hit = 0; \
+		if (fault_k >= -1) \
+			vh_alloc_arm(fault_k); \
+		call; \
+		if (fault_k >= -1) \
+		{ \
+			fault_n = vh_nalloc; \
+			fault_hit = fault_k >= 0 && vh_nalloc > fault_k; \
+			vh_alloc_disarm(); \
+			fault_k = -2; \
+		} \
+	} while (0)
 static void observe(const char *op, arg_t idx, arg_t count, int v, int ret, const long long *after, int nafter, int key)
 {
 	ev_begin("op");
@@ -86,6 +105,8 @@ static void observe(const char *op, arg_t idx, arg_t count, int v, int ret, cons
 	ev_arg("count", count);
 	ev_int("v", v);
 	ev_int("ret", ret);
+	ev_int("fault", fault_hit);
+	fault_hit = 0;
 	qsort(freed, (size_t)nfreed, sizeof freed[0], cmp_ll);
 	ev_ints("freed", freed, (size_t)nfreed);
 	ev_ints("after", after, (size_t)nafter);
@@ -102,7 +123,11 @@ static void observe(const char *op, arg_t idx, arg_t count, int v, int ret, cons
 }
 static const arg_t Z = {0, 0};
 
-static void fresh(int lvl, int initsize)
+static long cur_script = -1;
+/* end of an execution: everything is released, nothing json-c allocated during it may remain */
+static long live0;
+static int started;
+static void finish_execution(void)
 {
 	vh_on_free = 0;
 	if (al)
@@ -111,6 +136,20 @@ static void fresh(int lvl, int initsize)
 		json_object_put(arr);
 	al = 0;
 	arr = 0;
+	if (started)
+	{
+		ev_begin("op");
+		ev_str("op", "end");
+		ev_int("leak", (int)(vh_live - live0));
+		ev_end();
+	}
+	started = 0;
+}
+static void fresh(int lvl, int initsize)
+{
+	finish_execution();
+	started = 1;
+	live0 = vh_live;
 	level = lvl;
 	next_id = 1;
 	nfreed = 0;
@@ -125,6 +164,8 @@ static void fresh(int lvl, int initsize)
 	ev_begin("new");
 	ev_int("level", lvl);
 	ev_int("init", initsize);
+	if (cur_script >= 0)
+		ev_int("script", cur_script);
 	ev_end();
 }
 
@@ -155,7 +196,8 @@ static void give_back(int id)
 static void do_add(void)
 {
 	int id = new_elem();
-	int ret = level == 0 ? array_list_add(al, (void *)(intptr_t)id) : json_object_array_add(arr, node[id]);
+	int ret;
+	ARMED(ret = level == 0 ? array_list_add(al, (void *)(intptr_t)id) : json_object_array_add(arr, node[id]));
 	observe("add", Z, Z, id, ret, 0, 0, 0);
 	if (ret)
 		give_back(id);
@@ -163,8 +205,9 @@ static void do_add(void)
 static void do_put(arg_t idx)
 {
 	int id = new_elem();
-	int ret = level == 0 ? array_list_put_idx(al, real(idx), (void *)(intptr_t)id)
-	                     : json_object_array_put_idx(arr, real(idx), node[id]);
+	int ret;
+	ARMED(ret = level == 0 ? array_list_put_idx(al, real(idx), (void *)(intptr_t)id)
+	                       : json_object_array_put_idx(arr, real(idx), node[id]));
 	observe("put", idx, Z, id, ret, 0, 0, 0);
 	if (ret)
 		give_back(id);
@@ -172,22 +215,25 @@ static void do_put(arg_t idx)
 static void do_insert(arg_t idx)
 {
 	int id = new_elem();
-	int ret = level == 0 ? array_list_insert_idx(al, real(idx), (void *)(intptr_t)id)
-	                     : json_object_array_insert_idx(arr, real(idx), node[id]);
+	int ret;
+	ARMED(ret = level == 0 ? array_list_insert_idx(al, real(idx), (void *)(intptr_t)id)
+	                       : json_object_array_insert_idx(arr, real(idx), node[id]));
 	observe("insert", idx, Z, id, ret, 0, 0, 0);
 	if (ret)
 		give_back(id);
 }
 static void do_del(arg_t idx, arg_t count)
 {
-	int ret = level == 0 ? array_list_del_idx(al, real(idx), real(count))
-	                     : json_object_array_del_idx(arr, real(idx), real(count));
+	int ret;
+	ARMED(ret = level == 0 ? array_list_del_idx(al, real(idx), real(count))
+	                       : json_object_array_del_idx(arr, real(idx), real(count)));
 	observe("del", idx, count, 0, ret, 0, 0, 0);
 }
 static void do_shrink(int k)
 {
 	arg_t c = {0, k};
-	int ret = level == 0 ? array_list_shrink(al, (size_t)k) : json_object_array_shrink(arr, k);
+	int ret;
+	ARMED(ret = level == 0 ? array_list_shrink(al, (size_t)k) : json_object_array_shrink(arr, k));
 	observe("shrink", Z, c, 0, ret, 0, 0, 0);
 }
 static void do_get(arg_t idx)
@@ -253,8 +299,44 @@ static arg_t parse_arg(char **p)
 	a.n = (int)strtol(*p, p, 10);
 	return a;
 }
-/* script: "N lvl init;a;p B N;i B N;d B N B N;s K;g B N;o;b K" */
-static int replay(const char *path, long start, int lvl)
+/* script: "N lvl init;a;p B N;i B N;d B N B N;s K;g B N;o;b K"
+ * fault_last: -2 plain; -1 count the allocation requests of the LAST operation; k >= 0 fail its k-th request */
+static void run_script(char *line, int lvl, long fault_last)
+{
+	int nops = 0;
+	for (char *q = line; *q; q++)
+		if (*q == ';')
+			nops++;
+	nops++;
+	char *save = 0;
+	int i = 0;
+	for (char *tok = strtok_r(line, ";\n", &save); tok; tok = strtok_r(0, ";\n", &save))
+	{
+		char op = tok[0];
+		char *p = tok + 1;
+		fault_k = (++i == nops) ? fault_last : -2;
+		switch (op)
+		{
+		case 'N': fresh(lvl, (int)strtol(p, &p, 10)); break;
+		case 'a': do_add(); break;
+		case 'p': do_put(parse_arg(&p)); break;
+		case 'i': do_insert(parse_arg(&p)); break;
+		case 'd':
+		{
+			arg_t a = parse_arg(&p), b = parse_arg(&p);
+			do_del(a, b);
+			break;
+		}
+		case 's': do_shrink((int)strtol(p, &p, 10)); break;
+		case 'g': do_get(parse_arg(&p)); break;
+		case 'o': do_sort(); break;
+		case 'b': do_bsearch((int)strtol(p, &p, 10)); break;
+		default: fprintf(stderr, "bad op %s\n", tok); exit(2);
+		}
+		fault_k = -2;
+	}
+}
+static int replay(const char *path, long start, int lvl, int faults)
 {
 	FILE *f = fopen(path, "r");
 	if (!f)
@@ -266,30 +348,30 @@ static int replay(const char *path, long start, int lvl)
 	{
 		if (idx++ < start)
 			continue;
-		char *save = 0;
-		for (char *tok = strtok_r(line, ";\n", &save); tok; tok = strtok_r(0, ";\n", &save))
+		cur_script = faults ? idx - 1 : -1;
+		if (!faults)
 		{
-			char op = tok[0];
-			char *p = tok + 1;
-			switch (op)
-			{
-			case 'N': fresh(lvl, (int)strtol(p, &p, 10)); break;
-			case 'a': do_add(); break;
-			case 'p': do_put(parse_arg(&p)); break;
-			case 'i': do_insert(parse_arg(&p)); break;
-			case 'd':
-			{
-				arg_t a = parse_arg(&p), b = parse_arg(&p);
-				do_del(a, b);
-				break;
-			}
-			case 's': do_shrink((int)strtol(p, &p, 10)); break;
-			case 'g': do_get(parse_arg(&p)); break;
-			case 'o': do_sort(); break;
-			case 'b': do_bsearch((int)strtol(p, &p, 10)); break;
-			default: fprintf(stderr, "bad op %s\n", tok); return 2;
-			}
+			run_script(line, lvl, -2);
+			continue;
 		}
+		/* count the requests of the last operation, then fail each in turn (every run replays the whole history) */
+		char *copy = strdup(line);
+		fault_n = 0;
+		{
+			/* the counting run is not recorded */
+			FILE *keep = ev_out, *nul = fopen("/dev/null", "w");
+			ev_out = nul;
+			run_script(copy, lvl, -1);
+			ev_out = keep;
+			fclose(nul);
+		}
+		long n = fault_n;
+		for (long k = 0; k < n; k++)
+		{
+			strcpy(copy, line);
+			run_script(copy, lvl, k);
+		}
+		free(copy);
 	}
 	free(line);
 	fclose(f);
@@ -340,9 +422,10 @@ static int drive(int start, int nexec, int nops)
 			}
 			switch (vh_below(16))
 			{
-			case 0: case 1: case 2: do_add(); break;
-			case 3: case 4: case 5: do_put(pick_idx()); break;
-			case 6: case 7: do_insert(pick_idx()); break;
+			/* now and then the call's first allocation request fails */
+			case 0: case 1: case 2: fault_k = vh_below(12) ? -2 : 0; do_add(); break;
+			case 3: case 4: case 5: fault_k = vh_below(12) ? -2 : 0; do_put(pick_idx()); break;
+			case 6: case 7: fault_k = vh_below(12) ? -2 : 0; do_insert(pick_idx()); break;
 			case 8: case 9:
 			{
 				arg_t a = pick_idx(), c = {0, 0};
@@ -376,13 +459,9 @@ int c07_main(int argc, char **argv)
 {
 	int r = 2;
 	if (argc >= 4 && !strcmp(argv[0], "replay"))
-		r = replay(argv[1], atol(argv[2]), atoi(argv[3]));
+		r = replay(argv[1], atol(argv[2]), atoi(argv[3]), argc >= 5 ? atoi(argv[4]) : 0);
 	else if (argc >= 4 && !strcmp(argv[0], "drive"))
 		r = drive(atoi(argv[1]), atoi(argv[2]), atoi(argv[3]));
-	vh_on_free = 0;
-	if (al)
-		array_list_free(al);
-	if (arr)
-		json_object_put(arr);
+	finish_execution();
 	return r;
 }
